@@ -40,6 +40,17 @@ def _hours(hours, ind, kw="workinghours"):
     return [f"{ind}{kw} {days} {', '.join(rs)}" for days, rs in hours]
 
 
+def leave_line(lv):
+    """{'k': 'leaves'|'vacation'|'booking', 'type': 'annual', 'a': date, 'b': date|None|'+6h'}"""
+    k = lv["k"]
+    if k == "booking":
+        return f'booking "blk" {lv["a"]} {lv["b"]}'
+    rng = lv["a"] + (f" - {lv['b']}" if lv.get("b") else "")
+    if k == "vacation":
+        return f"vacation {rng}"
+    return f"leaves {lv.get('type', 'annual')} {rng}"
+
+
 def _resource(r, ind=""):
     out = [f'{ind}resource {r["id"]} "{r.get("name", r["id"])}" {{']
     i2 = ind + "  "
@@ -52,7 +63,8 @@ def _resource(r, ind=""):
     if r.get("shift"):
         out.append(f"{i2}workinghours {r['shift']}")
     out += _hours(r.get("hours") or [], i2)
-    out += [i2 + line for line in (r.get("leaves") or [])]
+    for lv in r.get("leaves") or []:
+        out.append(i2 + (lv if isinstance(lv, str) else leave_line(lv)))
     out += _limits(r.get("limits"), i2)
     for c in r.get("children") or []:
         out += _resource(c, i2)
@@ -135,7 +147,12 @@ def render(spec):
     out += ["  " + line for line in (spec.get("pattrs") or [])]
     for s in spec.get("scenarios") or []:
         out += _scen(s, "  ")
+    out += _hours(spec.get("pwh") or [], "  ")
     out.append("}")
+    for a, b in spec.get("vacations") or []:
+        out.append(f"vacation {a}" + (f" - {b}" if b else ""))
+    for typ, a, b in spec.get("gleaves") or []:
+        out.append(f'leaves {typ} "L" {a}' + (f" - {b}" if b else ""))
     out += list(spec.get("globals") or [])
     for sh in spec.get("shifts") or []:
         out.append(f'shift {sh["id"]} "{sh["id"]}" {{')
